@@ -228,6 +228,8 @@ def main(tier):
             d = json.loads(fl["src"])
             again = [compare(ctx, d["files"], d["cfgs"], "confirm")[0] for _ in range(3)]
             if not all(a == "differ" for a in again):
+                if os.environ.get("VERIF_DEBUG"):
+                    print("C19 debug: unconfirmed: %s\n%s" % (fl["detail"][:600], json.dumps(d["cfgs"])[:600]), file=sys.stderr)
                 ev.inconclusive += 1
                 ev.cls("unconfirmed_failure")
                 continue
